@@ -727,7 +727,9 @@ func (f *Frame) raiseV(cond, kind, anchor, val string) {
 	}
 	var catch []string
 	for _, d := range f.defers {
-		if d.recovers {
+		// a panic raised while the deferred calls are already running (re-panic in a handler, panic in a
+		// deferred function) is not caught again: it leaves the function
+		if d.recovers && !f.panicMode && !f.inRecoverNormal {
 			catch = append(catch, d.cond)
 		}
 	}
